@@ -78,6 +78,13 @@ func runC01(c *core.Ctx) {
 	c.Floor("R01d", 38, "7 readers × (EOF, fatal type, ETF, plain, Read classes) + ingester")
 
 	// ---------------- R01e
+	c01FreshBytes(c, r, "R01e")
+	c.Floor("R01e", 3, "returns of the built-in Ingester.Read")
+}
+
+// c01FreshBytes: the record bytes handed out by every built-in Ingester.Read are nil or a fresh json.Marshal result
+// (shared with C10: a reused output buffer would make earlier results change when later records are read).
+func c01FreshBytes(c *core.Ctx, r *ecRoles, rule string) {
 	for _, ig := range r.ingesters {
 		sig := ig.Read.Signature
 		bi := -1
@@ -89,16 +96,15 @@ func runC01(c *core.Ctx) {
 			}
 		}
 		if bi < 0 {
-			c.Unresolved("R01e", "[]byte result of "+core.FuncKey(ig.Read), "no []byte result")
+			c.Unresolved(rule, "[]byte result of "+core.FuncKey(ig.Read), "no []byte result")
 			continue
 		}
 		for _, rt := range ecReturns(ig.Read) {
 			key := core.FuncKey(ig.Read) + " returns bytes"
 			why, ok := c01BytesProvenance(rt.Results[bi], map[ssa.Value]bool{})
-			c.Check(ok, "R01e", key, core.InstrPos(rt), why, "returned []byte is neither nil nor the result of encoding/json.Marshal: "+why)
+			c.Check(ok, rule, key, core.InstrPos(rt), why, "returned []byte is neither nil nor the result of encoding/json.Marshal: "+why)
 		}
 	}
-	c.Floor("R01e", 3, "returns of the built-in Ingester.Read")
 }
 
 func c01BytesProvenance(v ssa.Value, seen map[ssa.Value]bool) (string, bool) {
